@@ -39,7 +39,8 @@ THEOREMS = [
     # limit / top-N
     "limit_exec_eq_spec", "chunking_irrelevant_limit", "topn_eq_order_limit", "topn_eq_spec",
     # aggregation paths
-    "rowpath_eq_spec", "simpleagg_eq_hashagg_nokeys_sum_partial", "simpleagg_eq_hashagg_nokeys_sum_unsound",
+    "rowpath_eq_spec", "rowpath_sum_eq_spec", "chunkpath_sum_eq_spec", "rowpath_count_distinct_eq_spec",
+    "chunkpath_count_distinct_eq_spec", "simpleagg_eq_hashagg_nokeys_sum", "simpleagg_eq_hashagg_nokeys_sum_regression",
     "simpleagg_eq_hashagg_nokeys_first_unsound",
     "simpleagg_is_chunkpath", "sortagg_nokeys_is_rowpath", "maxVal_assoc", "minVal_assoc", "chunkpath_eq_spec",
     "simpleagg_eq_hashagg_nokeys",
